@@ -147,66 +147,78 @@ Theorem C04_dns_pipeline_sound_partial :
 Proof. exact dns_pipeline_sound_partial. Qed.
 Print Assumptions C04_dns_pipeline_sound_partial.
 
-(* ---- the program that is actually compiled: lowering to match sets + the matcher scan ---- *)
-Definition C04_lower_sound_full : Prop :=
-  forall (packet D : Type) (atom_sem : string -> string -> string -> packet -> bool) (out_sem : func -> option D)
-         (rules : list rule) (pk : packet),
-    compiled_decision packet D atom_sem out_sem rules pk = Some (decide packet D atom_sem out_sem rules pk).
+(* ---- the program that is actually compiled: lowering to match sets + the matcher scan ----
+   Since /repo dd2eef7 RulesBuilder.Apply refuses a condition that has no values, so the statements need no
+   hypothesis about empty conditions any more: a compiled list either fails to build (exactly when some
+   condition is empty) or decides every packet as the AST says.  `rules_have_conditions` (every rule has at
+   least one condition) is a guarantee of the grammar and is kept by every optimizer. *)
+Theorem C04_build_error_iff_empty_condition :
+  forall rules : list rule, lower rules = None <-> some_condition_empty rules.
+Proof. exact C04_build_error_iff_empty_condition_proof. Qed.
+Print Assumptions C04_build_error_iff_empty_condition.
 
-(* witness: domain() && port(80) -> block : the condition without values yields no match set *)
-Theorem C04_lower_sound_refuted :
-  exists (rules : list rule) (pk : string),
-    compiled_decision string string w_atom w_out rules pk <> Some (decide string string w_atom w_out rules pk).
-Proof. exact C04_lower_sound_refuted_proof. Qed.
-Print Assumptions C04_lower_sound_refuted.
-
-Theorem C04_lower_sound_partial :
+Theorem C04_lower_sound :
   forall (packet D : Type) (atom_sem : string -> string -> string -> packet -> bool) (out_sem : func -> option D)
          (rules : list rule),
-    nonempty_conditions rules ->
+    rules_have_conditions rules ->
     forall pk : packet,
-      compiled_decision packet D atom_sem out_sem rules pk = Some (decide packet D atom_sem out_sem rules pk).
-Proof. exact C04_lower_sound_partial_proof. Qed.
-Print Assumptions C04_lower_sound_partial.
+      (some_condition_empty rules -> compiled_decision packet D atom_sem out_sem rules pk = CBuildError) /\
+      (~ some_condition_empty rules ->
+       compiled_decision packet D atom_sem out_sem rules pk = CDecision (decide packet D atom_sem out_sem rules pk)).
+Proof. exact C04_lower_sound_proof. Qed.
+Print Assumptions C04_lower_sound.
 
-(* the parser never produces a condition without values, but DatReaderOptimizer does: a geodata reference
-   whose expansion is empty (geosite:cn@nope) - and then the compiled program decides differently *)
-Theorem C04_dat_empties_condition :
-  exists (db : geodb) (rules out : list rule) (pk : string),
-    nonempty_conditions rules /\ traffic_pipeline db rules = XOk out /\ ~ nonempty_conditions out /\
-    compiled_decision string string w_atom_port w_out out pk <> Some (decide string string w_atom_port w_out rules pk).
-Proof. exact C04_dat_empties_condition_proof. Qed.
-Print Assumptions C04_dat_empties_condition.
+(* regression of the repaired defect: domain(geosite: cn@nope) && port(80) -> block has no empty condition as
+   written, DatReaderOptimizer leaves `domain()`, and the compiled program is a build error for every packet *)
+Theorem C04_empty_expansion_is_build_error :
+  exists (db : geodb) (rules out : list rule),
+    rules_have_conditions rules /\ ~ some_condition_empty rules /\
+    traffic_pipeline db rules = XOk out /\ some_condition_empty out /\
+    forall pk : string, compiled_decision string string w_atom w_out out pk = CBuildError.
+Proof. exact C04_empty_expansion_is_build_error_proof. Qed.
+Print Assumptions C04_empty_expansion_is_build_error.
 
-(* the property itself, for the part that holds: the compiled traffic program decides every packet as the
-   list the user wrote *)
-Theorem C04_compiled_program_partial :
+(* the property itself for traffic routing: the compiled program is a configuration error or decides every
+   packet as the list the user wrote (remaining hypotheses = the two open findings) *)
+Theorem C04_compiled_program :
   forall (packet D : Type) (atom_sem : string -> string -> string -> packet -> bool) (out_sem : func -> option D)
          (db : geodb) (rules mid : list rule),
     alias_respecting packet atom_sem ->
     geo_respecting packet atom_sem (dat_expansion db) ->
+    rules_have_conditions rules ->
     dat_opt db (alias_opt rules) = XOk mid ->
     merge_hazard_free D out_sem mid ->
     dedup_faithful packet atom_sem (merge_sort_opt mid) ->
-    nonempty_conditions (dedup_opt (merge_sort_opt mid)) ->
     exists out, traffic_pipeline db rules = XOk out /\
-                forall pk : packet, compiled_decision packet D atom_sem out_sem out pk = Some (decide packet D atom_sem out_sem rules pk).
-Proof. exact C04_compiled_program_partial_proof. Qed.
-Print Assumptions C04_compiled_program_partial.
+                forall pk : packet,
+                  (some_condition_empty out -> compiled_decision packet D atom_sem out_sem out pk = CBuildError) /\
+                  (~ some_condition_empty out ->
+                   compiled_decision packet D atom_sem out_sem out pk = CDecision (decide packet D atom_sem out_sem rules pk)).
+Proof. exact C04_compiled_program_proof. Qed.
+Print Assumptions C04_compiled_program.
 
 (* the same for DNS request / response routing *)
-Theorem C04_compiled_dns_program_partial :
+Theorem C04_compiled_dns_program :
   forall (packet D : Type) (atom_sem : string -> string -> string -> packet -> bool) (out_sem : func -> option D)
          (db : geodb) (rules mid : list rule),
     geo_respecting packet atom_sem (dat_expansion db) ->
+    rules_have_conditions rules ->
     dat_opt db rules = XOk mid ->
     merge_hazard_free D out_sem mid ->
     dedup_faithful packet atom_sem (merge_sort_opt mid) ->
-    nonempty_conditions (dedup_opt (merge_sort_opt mid)) ->
     exists out, (dns_pipeline db rules = XOk out /\ dns_response_pipeline db rules = XOk out /\ daedns_pipeline db rules = XOk out) /\
-                forall pk : packet, compiled_decision packet D atom_sem out_sem out pk = Some (decide packet D atom_sem out_sem rules pk).
-Proof. exact C04_compiled_dns_program_partial_proof. Qed.
-Print Assumptions C04_compiled_dns_program_partial.
+                forall pk : packet,
+                  (some_condition_empty out -> compiled_decision packet D atom_sem out_sem out pk = CBuildError) /\
+                  (~ some_condition_empty out ->
+                   compiled_decision packet D atom_sem out_sem out pk = CDecision (decide packet D atom_sem out_sem rules pk)).
+Proof. exact C04_compiled_dns_program_proof. Qed.
+Print Assumptions C04_compiled_dns_program.
+
+Example C04_compiled_nonvacuous :
+  compiled_decision string string w_atom w_out (dedup_opt (merge_sort_opt nonvacuous_rules)) "a.com"
+  = CDecision (Some "proxy", false)
+  /\ rules_have_conditions nonvacuous_rules /\ ~ some_condition_empty (dedup_opt (merge_sort_opt nonvacuous_rules)).
+Proof. exact compiled_nonvacuous. Qed.
 
 (* The data the model takes from the source (coq/gen/C04_Extracted.v, regenerated on every run) is what the
    theorems above were proved for: alias tables, print formats used by merge and dedup, pipeline composition. *)
